@@ -39,22 +39,7 @@ def match_known(sig, known):
     return None
 
 
-def run_shard(prop, tier, seed, shard, nshards, env, outdir, timeout,
-              budget, only_case=None):
-    out = os.path.join(outdir, f"shard{shard}.json")
-    cmd = [build.PY, "-m", "pvm.shard", prop, "--tier", tier,
-           "--seed", str(seed), "--shard", str(shard),
-           "--nshards", str(nshards), "--out", out]
-    if budget:
-        cmd += ["--budget", str(budget)]
-    if only_case is not None:
-        cmd += ["--only-case", str(only_case)]
-    env = dict(env)
-    env["PVM_SHARD"] = str(shard)
-    env["PVM_TMP"] = outdir
-    if "ASAN_OPTIONS_TMPL" in env:
-        env["ASAN_OPTIONS"] = env.pop("ASAN_OPTIONS_TMPL").format(
-            log=os.path.join(outdir, f"asan{shard}"))
+def _one_run(cmd, env, timeout, out):
     t0 = time.time()
     try:
         p = subprocess.run(cmd, cwd=VERIF, env=env, timeout=timeout,
@@ -72,14 +57,67 @@ def run_shard(prop, tier, seed, shard, nshards, env, outdir, timeout,
                 res = json.load(fh)
         except Exception:  # noqa
             res = None
-    return {"shard": shard, "rc": rc, "log": log[-6000:], "res": res,
-            "wall": time.time() - t0}
+    return rc, log, res, time.time() - t0
+
+
+def run_shard(prop, tier, seed, shard, nshards, env, outdir, timeout,
+              budget, only_case=None, resume=False):
+    """Run one shard.  With resume=True (sanitizer workloads) a process that
+    dies is restarted after the case that killed it; every segment's
+    checkpointed counters are kept and the deaths are reported."""
+    env = dict(env)
+    env["PVM_SHARD"] = str(shard)
+    env["PVM_TMP"] = outdir
+    if "ASAN_OPTIONS_TMPL" in env:
+        log = os.path.join(outdir, f"asan{shard}")
+        env["ASAN_OPTIONS"] = env.pop("ASAN_OPTIONS_TMPL").format(log=log)
+        env["UBSAN_OPTIONS"] = env.pop("UBSAN_OPTIONS_TMPL").format(log=log)
+        env["PVM_SANLOG"] = log
+    segments, deaths = [], []
+    resume_after = None
+    t0 = time.time()
+    for attempt in range(40):
+        out = os.path.join(outdir, f"shard{shard}.{attempt}.json")
+        prog = os.path.join(outdir, f"progress{shard}")
+        cmd = [build.PY, "-m", "pvm.shard", prop, "--tier", tier,
+               "--seed", str(seed), "--shard", str(shard),
+               "--nshards", str(nshards), "--out", out]
+        if budget:
+            cmd += ["--budget", str(max(5.0, budget - (time.time() - t0)))]
+        if only_case is not None:
+            cmd += ["--only-case", str(only_case)]
+        if resume:
+            cmd += ["--progress", prog]
+            if os.path.exists(prog):
+                os.remove(prog)
+        if resume_after is not None:
+            cmd += ["--resume-after", resume_after]
+        rc, log, res, wall = _one_run(cmd, env, timeout, out)
+        segments.append({"shard": shard, "rc": rc, "log": log[-6000:],
+                         "res": res, "wall": wall})
+        if rc in (0, 3) or not resume or rc == "timeout":
+            break
+        # died: which case?
+        try:
+            with open(prog) as fh:
+                cid = fh.read().strip()
+        except OSError:
+            cid = None
+        if not cid or cid == resume_after:
+            break
+        deaths.append({"case_id": cid, "rc": rc, "log": log[-3000:],
+                       "shard": shard})
+        resume_after = cid
+    last = segments[-1]
+    return {"shard": shard, "rc": last["rc"], "log": last["log"],
+            "res": last["res"], "wall": time.time() - t0,
+            "segments": segments, "deaths": deaths}
 
 
 def merge(results):
     m = {"evaluations": 0, "nontrivial": set(), "counters": {}, "maxima": {},
          "events": {}, "samples": [], "timeouts": 0, "notes": {}}
-    for r in results:
+    for r in [seg for R in results for seg in R["segments"]]:
         d = r["res"]
         if not d:
             continue
@@ -142,7 +180,9 @@ def main(argv=None):
             "asan_options",
             "detect_leaks=0:halt_on_error=1:abort_on_error=1:"
             "allocator_may_return_null=1:log_path={log}")
-        extra["UBSAN_OPTIONS"] = "print_stacktrace=1:halt_on_error=1"
+        extra["UBSAN_OPTIONS_TMPL"] = META.get(
+            "ubsan_options",
+            "print_stacktrace=1:halt_on_error=1:log_path={log}")
     env = build.child_env(src, flavour, extra)
 
     nshards = a.shards or META.get("shards", {}).get(tier, NCPU)
@@ -157,7 +197,8 @@ def main(argv=None):
     with ThreadPoolExecutor(max_workers=NCPU) as ex:
         results = list(ex.map(
             lambda s: run_shard(prop, tier, seed, s, nshards, env, outdir,
-                                timeout, budget, only_case), shards))
+                                timeout, budget, only_case,
+                                bool(META.get("resume_on_death"))), shards))
     # sanitizer logs
     san_logs = {}
     for f in sorted(glob.glob(os.path.join(outdir, "asan*"))):
@@ -167,14 +208,13 @@ def main(argv=None):
         except OSError:
             pass
     m = merge(results)
+    m["notes"]["_run"] = {"tier": tier, "seed": seed}
     if hasattr(mod, "post"):
         mod.post(m, results, san_logs)
 
     crashed = [r for r in results if r["rc"] != 0 or r["res"] is None]
     incon = []
     for r in crashed:
-        if META.get("crash_is_event") and r["rc"] != 3:
-            continue   # handled by mod.post
         why = "timeout" if r["rc"] == "timeout" else f"rc={r['rc']}"
         err = (r["res"] or {}).get("error") or r["log"][-1500:]
         incon.append(f"shard {r['shard']} {why}: {err}")
